@@ -100,6 +100,8 @@ def proj_value(v, big):
         return dict(nil, t='empty')
     if type(v) is str and v == 'released':
         return dict(nil, t='released')
+    if type(v) is str and v == 'lingering':
+        return dict(nil, t='lingering')
     if type(v) is str and v == 'busydone':
         return dict(nil, t='busydone')
     if type(v) is str and v == 'slowval':
@@ -240,7 +242,11 @@ class Replay:
                 self.await_(lambda: os.path.exists(self.flags[-1] + '.started'), 'stuck')
             return
         if cstate == 'dead':
-            self.await_(self.worker_os_dead, 'dead')
+            if self.await_(self.worker_os_dead, 'dead'):
+                self.late = True        # the death of the child is established (from the OS, not through the worker's API)
+        elif cstate == 'linger':
+            # the loop has ended and the final result has been received (frontend thread done), the process stays
+            self.await_(lambda: self.front is not None and not self.front.is_alive() and self.child_os_alive(), 'linger')
         elif cstate in ('stuck', 'busy') and self.flags:
             self.await_(lambda: os.path.exists(self.flags[-1] + '.started'), cstate)
         elif cstate == 'slow' and self.flags:
@@ -256,7 +262,7 @@ class Replay:
 
     def do_enqueue(self, it, fn):
         a = [self.wrap(x) for x in it['a']]
-        if it['a'][:1] in (['@stuck'], ['@busy'], ['@slowres']):
+        if it['a'][:1] in (['@stuck'], ['@busy'], ['@slowres'], ['@linger']):
             flag = os.path.join(self.tmp, 'flag-%s-%d' % (self.job['id'], len(self.flags)))
             self.flags.append(flag)
             a.append(flag)
@@ -268,8 +274,10 @@ class Replay:
 
         def empty_kind():
             return 'End' if len(inc['raw']) > nraw else 'Empty'
-        if op in ('enq', 'enq@raise', 'enq@stuck', 'enq@busy', 'enq@slow'):
+        if op in ('enq', 'enq@raise', 'enq@stuck', 'enq@busy', 'enq@slow', 'enq@bad', 'enq@linger'):
             it = {'a': ['@raise'], 'kw': []} if op == 'enq@raise' else \
+                 {'a': ['@bad'], 'kw': []} if op == 'enq@bad' else \
+                 {'a': ['@linger'], 'kw': []} if op == 'enq@linger' else \
                  {'a': ['@stuck'], 'kw': []} if op == 'enq@stuck' else \
                  {'a': ['@busy'], 'kw': []} if op == 'enq@busy' else \
                  {'a': ['@slowres'], 'kw': []} if op == 'enq@slow' else self.item()
@@ -278,7 +286,8 @@ class Replay:
                 out = 'ok'
                 inc['enq'].append(it)
                 if inc['fault'] == 'none' and op != 'enq':
-                    inc['fault'] = {'enq@raise': 'poison', 'enq@stuck': 'stuck', 'enq@busy': 'busy', 'enq@slow': 'slowres'}[op]
+                    inc['fault'] = {'enq@raise': 'poison', 'enq@bad': 'poison', 'enq@stuck': 'stuck', 'enq@busy': 'busy', 'enq@slow': 'slowres',
+                                    'enq@linger': 'linger'}[op]
             except WCE:
                 out = 'WCE'
             except Exception as e:  # noqa - the exact exception type is the observation (only WorkerClosedError is a refusal)
@@ -387,11 +396,16 @@ class Replay:
                     w.restart(0.2, timeout=0.2)
                 else:
                     w.restart(0.2, False, timeout=0.2)
-            except RuntimeError:
+            except Exception as e:  # noqa - RuntimeError('Could not stop a worker!') or whatever else escapes: the judge decides
                 self.late = True
-                still = tuple(w.id) == old_id and w.is_alive() and self.child_os_alive(old_child)
+                try:
+                    still = tuple(w.id) == old_id and w.is_alive() and self.child_os_alive(old_child)
+                except Exception:  # noqa
+                    still = False
                 inc['rraised'].append({'still': 'T' if still else 'F'})
-                return 'raised:RuntimeError'
+                if not isinstance(e, RuntimeError):
+                    self.notes.append('restart raised %r' % (e,))
+                return 'raised:' + type(e).__name__
             inc['endk'] = 'restarted'
             # the old incarnation = its child and, for a remote worker, the frontend thread that served it
             front_alive = old_front is not None and old_front.is_alive()
@@ -727,14 +741,20 @@ def model_check(ev, prop, tier):
     if prop == 'C05':
         prefetch('PersistentMC', [('blockafterclose', _cfg('Persistent_mc.cfg', BlockAfterClose='FALSE')),
                                   ('prefix', open(os.path.join(tlc.SPEC, 'Persistent_prefix.cfg')).read())] +
-                 [('closedguard', _cfg('Persistent_mc.cfg', ClosedGuard='FALSE'))] +
+                 [('closedguard', _cfg('Persistent_mc.cfg', ClosedGuard='FALSE')),
+                  ('mc-death', _cfg('Persistent_mc.cfg', Ops='Ops_c05death', MaxSteps=4)),
+                  ('enqcached', _cfg('Persistent_mc.cfg', Ops='Ops_c05death', MaxSteps=4, EnqChecksAlive='FALSE')),
+                  ('W_NoEnqueueOnUnobservedDead', _cfg('Persistent_mc.cfg', Ops='Ops_c05death', MaxSteps=4, inv=['W_NoEnqueueOnUnobservedDead']))] +
                  [(w, _cfg('Persistent_mc.cfg', inv=[w])) for w in ('W_NoFullStream', 'W_NoLate', 'W_NoCleanCall', 'W_NoLongerArgs', 'W_NoBlockingReadAfterClose', 'W_NoEnqueueOnClosedRunning')])
     else:
         prefetch('PersistentMC', [(w, _cfg('Persistent_c17.cfg', inv=[w])) for w in ('W_NoRestartUnread', 'W_NoRestartRaised', 'W_NoRestartKilled', 'W_NoSecondRestart')] +
                  [(w, _cfg('Persistent_c17.cfg', inv=[w], Ops='Ops_c17timed')) for w in ('W_NoTimedRestartOfBusy', 'W_NoTimedRestartOfSlowFrontend')] +
                  [('wrong-%s-%s' % (c, i), _cfg('Persistent_c17.cfg', inv=[i], Ops='Ops_c17timed', **{c: 'FALSE'}))
-                  for c, i in (('WaitTruthful', 'Inv_C17_FreshStream'), ('WaitTruthful', 'Inv_C17_RaisesNotAbandons'), ('TermOwnTimeout', 'Inv_C17_Live'))] +
-                 [('wrong-' + c, _cfg('Persistent_c17.cfg', **{c: 'FALSE'})) for c in ('FreshPipe', 'ResetClosed', 'CounterFirst')])
+                  for c, i in (('WaitTruthful', 'Inv_C17_FreshStream'), ('WaitTruthful', 'Inv_C17_RaisesNotAbandons'), ('TermOwnTimeout', 'Inv_C17_Live'),
+                               ('AliveAsksServer', 'Inv_C17_RaisesNotAbandons'))] +
+                 [('wrong-' + c, _cfg('Persistent_c17.cfg', **{c: 'FALSE'})) for c in ('FreshPipe', 'ResetClosed', 'CounterFirst', 'WaitSwallowsBadResult')] +
+                 [('W_NoRestartOfLingering', _cfg('Persistent_c17.cfg', inv=['W_NoRestartOfLingering'], Ops='Ops_c17timed')),
+                  ('W_NoRestartWhileChildDiesByError', _cfg('Persistent_c17.cfg', inv=['W_NoRestartWhileChildDiesByError']))])
     if prop == 'C05':
         big = dict(MaxSteps=6, MaxEnq=2) if tier == 'thorough' else {}
         r = tlc.run('PersistentMC', cfg_text=_cfg('Persistent_mc.cfg', **big), coverage=(tier == 'thorough'), name='mc', timeout=3000)
@@ -757,6 +777,18 @@ def model_check(ev, prop, tier):
         if rb.error != 'invariant:Inv_C05_End':
             raise MachineryError('non-blocking read of a closed but still working worker is not rejected by the model checker: %s' % rb.error)
         wit['variant_BlockAfterClose_FALSE'] = rb.error
+        rd = _sr('PersistentMC', cfg_text=_cfg('Persistent_mc.cfg', Ops='Ops_c05death', MaxSteps=4), name='mc-death', must_complete=True)
+        ev.add_tlc('exhaustive, every interleaving: histories in which the child dies on its own (target raises) before further enqueue / call', rd)
+        if rd.error or not rd.completed:
+            raise MachineryError('Persistent.tla (death on its own) violates its own properties: %s' % rd.error)
+        re_ = _sr('PersistentMC', cfg_text=_cfg('Persistent_mc.cfg', Ops='Ops_c05death', MaxSteps=4, EnqChecksAlive='FALSE'), name='enqcached', must_complete=False)
+        if re_.error != 'invariant:Inv_C05_Closed':
+            raise MachineryError('enqueue testing the cached _dead flag is not rejected by the model checker: %s' % re_.error)
+        wit['variant_EnqChecksAlive_FALSE'] = re_.error
+        rw_ = _sr('PersistentMC', cfg_text=_cfg('Persistent_mc.cfg', Ops='Ops_c05death', MaxSteps=4, inv=['W_NoEnqueueOnUnobservedDead']), name='W_NoEnqueueOnUnobservedDead', must_complete=False)
+        if rw_.error != 'invariant:W_NoEnqueueOnUnobservedDead':
+            raise MachineryError('witness W_NoEnqueueOnUnobservedDead not reachable: %s' % rw_.error)
+        wit['W_NoEnqueueOnUnobservedDead'] = 'reached'
         rg = _sr('PersistentMC', cfg_text=_cfg('Persistent_mc.cfg', ClosedGuard='FALSE'), name='closedguard', must_complete=False)
         if rg.error != 'invariant:Inv_C05_Closed':
             raise MachineryError('enqueue on a closed, still running process worker raising OSError is not rejected by the model checker: %s' % rg.error)
@@ -785,20 +817,26 @@ def model_check(ev, prop, tier):
         ev.add_tlc('exhaustive, every interleaving with time: restart(timeout=t) against a busy target / a frontend still rebuilding a result (wait(t), then terminate() with its own grace)', rt_)
         if rt_.error:
             raise MachineryError('Persistent.tla (timed restarts) violates its own C17 properties: %s\n%s' % (rt_.error, '\n'.join(rt_.trace[:80])))
-        for w in ('W_NoTimedRestartOfBusy', 'W_NoTimedRestartOfSlowFrontend'):
+        rw = _sr('PersistentMC', cfg_text=_cfg('Persistent_c17.cfg', inv=['W_NoRestartWhileChildDiesByError']), name='W_NoRestartWhileChildDiesByError', must_complete=False)
+        if rw.error != 'invariant:W_NoRestartWhileChildDiesByError':
+            raise MachineryError('witness W_NoRestartWhileChildDiesByError not reachable: %s' % rw.error)
+        wit['W_NoRestartWhileChildDiesByError'] = 'reached'
+        for w in ('W_NoTimedRestartOfBusy', 'W_NoTimedRestartOfSlowFrontend', 'W_NoRestartOfLingering'):
             rw = _sr('PersistentMC', cfg_text=_cfg('Persistent_c17.cfg', inv=[w], Ops='Ops_c17timed'), name=w, must_complete=False)
             if rw.error != 'invariant:' + w:
                 raise MachineryError('witness %s not reachable (vacuous model): %s' % (w, rw.error))
             wit[w] = 'reached'
         for const, inv, expect in (('WaitTruthful', 'Inv_C17_FreshStream', 'invariant:Inv_C17_FreshStream'),
                                    ('WaitTruthful', 'Inv_C17_RaisesNotAbandons', 'invariant:Inv_C17_RaisesNotAbandons'),
-                                   ('TermOwnTimeout', 'Inv_C17_Live', 'invariant:Inv_C17_Live')):
+                                   ('TermOwnTimeout', 'Inv_C17_Live', 'invariant:Inv_C17_Live'),
+                                   ('AliveAsksServer', 'Inv_C17_RaisesNotAbandons', 'invariant:Inv_C17_RaisesNotAbandons')):
             rv = _sr('PersistentMC', cfg_text=_cfg('Persistent_c17.cfg', inv=[inv], Ops='Ops_c17timed', **{const: 'FALSE'}),
                          name='wrong-%s-%s' % (const, inv), must_complete=False)
             if rv.error != expect:
                 raise MachineryError('wrong variant %s=FALSE is not rejected by %s: %s' % (const, inv, rv.error))
             wit['variant_%s_FALSE_%s' % (const, inv)] = rv.error
-        for const, expect in (('FreshPipe', 'invariant:'), ('ResetClosed', 'invariant:Inv_C17_Live'), ('CounterFirst', 'invariant:Inv_C17_CounterZero')):
+        for const, expect in (('FreshPipe', 'invariant:'), ('ResetClosed', 'invariant:Inv_C17_Live'), ('CounterFirst', 'invariant:Inv_C17_CounterZero'),
+                              ('WaitSwallowsBadResult', 'invariant:Inv_C17_Live')):
             rv = _sr('PersistentMC', cfg_text=_cfg('Persistent_c17.cfg', **{const: 'FALSE'}), name='wrong-' + const, must_complete=False)
             if not (rv.error or '').startswith(expect):
                 raise MachineryError('wrong variant %s=FALSE is not rejected by the model checker: %s' % (const, rv.error))
@@ -953,6 +991,14 @@ def run(prop, tier, replay=None):
                             it['a'][0] = 'x'
                     nforced += 1
         ev.cov['forced_blocking_reads_after_close'] = nforced
+        # the worker dies on its own (the target raises); the harness waits for the OS to show the child gone - without
+        # touching the worker's API - and then enqueues: WorkerClosedError, on every kind (histories from TLC)
+        dp = [(k_, h) for k_, h in dump_paths(ev, 'Persistent_paths.cfg', 'C05 death on its own, then enqueue / call', Kinds='K_all',
+                                             Ops='Ops_c05death', MaxSteps=3 if quick else 4)
+              if any(s[0] == 'enq@raise' for s in h) and any(s[0] in ('enq', 'call') and s[3] == 'dead' for s in h)]
+        for k_, h in dp:
+            add(k_, h)['mut'] = False
+        ev.cov['death_then_enqueue_replays'] = len(dp)
     else:
         n_exh = 0
         allp = dump_paths(ev, 'Persistent_c17paths.cfg', 'C17 settled, 3 kinds', Kinds='K_all',
@@ -978,13 +1024,23 @@ def run(prop, tier, replay=None):
             n_exh += len(tp)
             ntimed = {'thread': 12, 'process': 8, 'remote': 16}[kinds[0]] * (1 if quick else 8)
             tsel = rng.sample(tp, min(len(tp), ntimed))
-            for must in (['enq@busy', 'restartK'], ['enq@busy', 'restartKP'], ['enq@slow', 'restartK'], ['enq@slow', 'restartKP']):
+            for must in (['enq@busy', 'restartK'], ['enq@busy', 'restartKP'], ['enq@slow', 'restartK'], ['enq@slow', 'restartKP'],
+                         ['enq@linger', 'close', 'restartK'], ['enq@linger', 'close', 'restartKP'], ['enq@linger', 'close', 'restartK', 'enq']):
                 tsel += [h for h in tp if [s[0] for s in h] == must and h not in tsel]      # the bare situations, always
             for h in tsel:
                 add(kinds[0], h)['timed'] = True
     only = os.environ.get('VERIF_PAPI_KINDS')          # debugging aid: restrict the replays to some kinds
     if only:
         jobs = [j for j in jobs if j['kind'] in only.split(',')]
+    if prop == 'C17':
+        # restart() of a live, busy worker whose child dies meanwhile by an exception pickle cannot rebuild (un-settled,
+        # slow target: restart is blocked in wait() when the child reaches the bad input); judged by TLC only
+        for kind in KINDS:
+            for ops_ in (['enq', 'enq@bad', 'restart', 'enq', 'nextb'], ['enq', 'enq@bad', 'enq', 'restartP', 'enq', 'nextb'],
+                         ['enq', 'enq@bad', 'restart', 'enq', 'enq@bad', 'restartP', 'enq', 'nextb']):
+                for _ in range(1 if quick else 3):
+                    j = add(kind, [[o, '?', 'F', 'idle', 0] for o in ops_], mode='eager')
+                    j['slow'], j['timed'] = True, True
     nproc = 14
     tl = 70 if quick else 1500
     # slow kinds first in each chunk order: interleave so every runner gets a similar load
@@ -1038,7 +1094,7 @@ def run(prop, tier, replay=None):
         nconf += 1
         if j['mode'] == 'eager':
             key = tuple(s[0] for s in j['hist'])
-            if key not in allowed:          # forced scenarios with operations outside the dumped alphabet: judged only
+            if key not in (allowed or {}):          # forced scenarios with operations outside the dumped alphabet: judged only
                 nconf -= 1
                 continue
             ok = tuple(r['outs']) in allowed[key]
